@@ -193,6 +193,10 @@ void
 BitArrayT<NCapacity>::set() noexcept {
 	for (uint8_t& unit : _storage)
 		unit = UINT8_MAX;
+
+	const Index tail = CAPACITY % 8;
+	if (tail)
+		_storage[UNIT_COUNT - 1] = static_cast<uint8_t>((1 << tail) - 1);
 }
 
 // - - - - - - - - - - - - - - - - - - - - - - - - - - - - - - - - - - - - - - -
